@@ -22,8 +22,8 @@
 Require Import Verif.Model.Base Verif.Model.Decision Verif.Model.DecisionRef Verif.Model.Level Verif.Model.Mode.
 Require Import Verif.Model.Attrs Verif.Model.Encode Verif.Model.Writers Verif.Model.Deliver.
 
-Definition fix_println : bool := false.
-Definition fix_emptykey : bool := false.
+Definition fix_println : bool := true.
+Definition fix_emptykey : bool := true.
 
 (* ---- the argument list ---- *)
 (* One item of `args ...any`, as the type switch of argsToAttrs (key position) and NewAttr
